@@ -44,6 +44,18 @@ type c20Req struct {
 	End       string `json:"end"`        // close | closeduring | shutdown | shutdownduring | peerclose | none
 	TimeoutMs int    `json:"timeout_ms"` // WithTimeout
 	Seed      int64  `json:"seed"`
+	// version consistency (the property's last clause): frames written after Connect became ready
+	GSVDelayUs  int  `json:"gsv_delay_us"`  // the reader thinks this long before answering GetSupportedVersion
+	PostKAs     int  `json:"post_kas"`      // keep-alives (ids 5000..) sent once the harness has seen the client ready
+	PostKAFirst bool `json:"post_ka_first"` // ... before the first caller is started (else right after)
+}
+
+// a frame the reader received that was certainly written after Connect became ready: a caller's request or
+// CloseConnection (SendMessage waits for ready), or the ack of a keep-alive sent after ready was observed
+type c20Post struct {
+	Typ int    `json:"typ"`
+	ID  uint32 `json:"id"`
+	Ver int    `json:"ver"`
 }
 
 func c20Frame(ver, typ int, id uint32, payload []byte) []byte {
@@ -65,15 +77,18 @@ func c20ConnEvent() []byte {
 }
 
 type c20Peer struct {
-	rq    c20Req
-	conn  net.Conn
-	wmu   sync.Mutex
-	kaID  uint32
-	acks  atomic.Int64
-	reqs  atomic.Int64
-	stop  chan struct{}
-	wg    sync.WaitGroup
-	werrs atomic.Int64
+	rq       c20Req
+	conn     net.Conn
+	wmu      sync.Mutex
+	kaID     uint32
+	acks     atomic.Int64
+	reqs     atomic.Int64
+	stop     chan struct{}
+	wg       sync.WaitGroup
+	werrs    atomic.Int64
+	fmu      sync.Mutex
+	post     []c20Post // frames written after ready (see c20Post)
+	postAcks atomic.Int64
 }
 
 func (p *c20Peer) write(b []byte) {
@@ -125,8 +140,20 @@ func (p *c20Peer) serve() {
 		if _, err := io.ReadFull(p.conn, payload); err != nil {
 			return
 		}
+		ver := int(binary.BigEndian.Uint16(hdr[0:2]) >> 10 & 7)
+		if typ == 1023 || typ == 14 || (typ == 72 && id >= 5000) {
+			p.fmu.Lock()
+			p.post = append(p.post, c20Post{typ, id, ver})
+			p.fmu.Unlock()
+			if typ == 72 {
+				p.postAcks.Add(1)
+			}
+		}
 		switch typ {
 		case 46: // GetSupportedVersion
+			if p.rq.GSVDelayUs > 0 {
+				time.Sleep(time.Duration(p.rq.GSVDelayUs) * time.Microsecond)
+			}
 			p.keepalives(p.rq.KABefore)
 			switch p.rq.GSV {
 			case "err":
@@ -243,15 +270,34 @@ func c20Run(rq c20Req) map[string]interface{} {
 
 	var connErr error
 	connDone := false
+	isReady := false
 	select {
 	case <-c.ready:
+		isReady = true
 	case connErr = <-connRes:
 		connDone = true
 	case <-time.After(5 * time.Second):
 	}
+	postKAs := func() {
+		if !isReady || rq.PostKAs == 0 {
+			return
+		}
+		for i := 0; i < rq.PostKAs; i++ {
+			p.write(c20Frame(1, 62, uint32(5000+i), nil))
+		}
+		for t0 := time.Now(); p.postAcks.Load() < int64(rq.PostKAs) && time.Since(t0) < 300*time.Millisecond; {
+			time.Sleep(100 * time.Microsecond)
+		}
+	}
+	if rq.PostKAFirst {
+		postKAs()
+	}
 	for k := 0; k < rq.Callers; k++ {
 		cwg.Add(1)
 		go caller(100 + k)
+	}
+	if !rq.PostKAFirst {
+		postKAs()
 	}
 	callersDone := make(chan struct{})
 	go func() { cwg.Wait(); close(callersDone) }()
@@ -313,7 +359,18 @@ func c20Run(rq c20Req) map[string]interface{} {
 	time.Sleep(2 * time.Millisecond)
 	cmu.Lock()
 	defer cmu.Unlock()
-	return map[string]interface{}{"id": rq.ID, "connect": c20Class(connErr), "connect_returned": connDone, "end": endRes,
+	// the version every frame written after ready must carry: min(client maximum, reader maximum)
+	want := 0
+	if isReady && (rq.GSV == "" || rq.GSV == "ok") && (rq.SPV == "" || rq.SPV == "ok") {
+		want = 2
+		if rq.Version == 1 || rq.Max < 2 {
+			want = 1
+		}
+	}
+	p.fmu.Lock()
+	post := append([]c20Post(nil), p.post...)
+	p.fmu.Unlock()
+	return map[string]interface{}{"want_version": want, "post_frames": post, "id": rq.ID, "connect": c20Class(connErr), "connect_returned": connDone, "end": endRes,
 		"callers": results, "acks": p.acks.Load(), "peer_reqs": p.reqs.Load()}
 }
 
